@@ -308,6 +308,115 @@ def rule_odometer(ctx, M, fn, pr):
     ctx.ok(rule, {"bound": "idx + 1 < len", "increments": len(incs), "resets": len(resets)}, sample=True)
 
 
+def rule_ctor(ctx, M):
+    """the iterator starts from complete data: every (combo, weight) entry of every player's range is
+    copied into that player's entry list, and the board comes from the evaluator's own board."""
+    rule = "C02.R-entries-complete"
+    ctx.rule(rule, "the iterator copies every (combo, weight) of every range into the player's entry list, unconditionally; its board is the evaluator's board")
+    fn = M.ctor
+    pr = P.Prov(fn)
+    fl = L.for_loops(fn, pr)
+    ev = F_evaluator_fields(M)
+    players_field, board_field = ev
+    # outer loop over evaluator.players (enumerate), inner loop over card_pairs(player)
+    outer = [lp for lp in fl if P.strip(lp.chain()[0]) == ("field", ("deref", ("param", 1)), players_field)
+             or P.strip(lp.chain()[0]) == ("field", ("param", 1), players_field)]
+    problems = []
+    if len(outer) != 1:
+        raise U(rule, "no single loop over the evaluator's players in the iterator constructor", fn)
+    outer = outer[0]
+    onames = [c.rsplit("::", 1)[-1] for c in outer.chain()[1]]
+    if any(n in ("skip", "take", "filter", "rev", "step_by", "filter_map", "take_while", "skip_while") for n in onames):
+        problems.append(f"the player loop goes through {onames}")
+    pos = ("field", outer.item_term, 0) if "enumerate" in onames else None
+    player = ("field", outer.item_term, 1) if "enumerate" in onames else outer.item_term
+    inner = [lp for lp in fl if lp is not outer and lp.header in outer.body]
+    inner_ok = None
+    for lp in inner:
+        src, chain = lp.chain()
+        so = P.strip(src, calls=False)
+        base = so
+        if so[0] == "call" and so[1] in M.F.fns and I.getter_field(M.F.fns[so[1]]) is not None and len(so[2]) == 1:
+            base = P.strip(so[2][0])
+        if base == P.strip(player) or base == player:
+            inner_ok = lp
+            inames = [c.rsplit("::", 1)[-1] for c in chain]
+            if any(n in ("skip", "take", "filter", "rev", "step_by", "filter_map", "take_while", "skip_while") for n in inames):
+                problems.append(f"the entry loop goes through {inames}")
+    if inner_ok is None:
+        raise U(rule, "no loop over a player's (combo, weight) map inside the player loop", fn)
+    pushes = [(bi, t) for bi, t in fn.calls() if t["callee"].get("name") == "push" and bi in inner_ok.body]
+    if len(pushes) != 1:
+        problems.append(f"{len(pushes)} pushes in the entry loop")
+    else:
+        bi, t = pushes[0]
+        if not L.in_every_iteration(fn, inner_ok, bi):
+            # a filter is acceptable only if it looks at the combo's cards and the evaluator's board alone (pruning combos that
+            # collide with the flop cannot change the set of deals); anything involving the weight or other data drops legal deals
+            item = inner_ok.item_term
+            weight_t, combo_t = ("field", item, 1), ("field", item, 0)
+            bad_cond = None
+            seen_cond = False
+            for b2, lab2, truth2, term2 in I.bool_edges(fn, pr):
+                if b2 not in inner_ok.body or not fn.cfg.edge_dominates(b2, lab2, bi):
+                    continue
+                seen_cond = True
+                subs = list(P.walk(term2))
+                mentions_weight = any(x == weight_t for x in subs)
+                mentions_combo = any(x == combo_t for x in subs)
+                # other data the condition looks at: fields of the evaluator outside the item's own provenance
+                inside_item = {id(y) for x in subs if x == item for y in P.walk(x)}
+                roots_ok = all((x[2] == board_field) for x in subs
+                               if x[0] == "field" and P.strip(x[1]) == ("param", 1) and id(x) not in inside_item)
+                if mentions_weight or not mentions_combo or not roots_ok:
+                    bad_cond = P.show(term2)[:100]
+            if bad_cond or not seen_cond:
+                problems.append("the push of an entry is conditional" + (f" on `{bad_cond}`" if bad_cond else "") +
+                                ": some (combo, weight) entries of a range never reach the enumeration (deals using them are missing)")
+        val = P.strip(pr.operand(t["args"][1]))
+        item = inner_ok.item_term
+        want = ("agg", "tuple", (("deref", ("field", item, 0)), ("deref", ("field", item, 1))))
+        if not (val[0] == "agg" and val[1] == "tuple" and len(val[2]) == 2 and
+                P.strip(val[2][0]) == ("field", item, 0) and P.strip(val[2][1]) == ("field", item, 1)):
+            problems.append(f"the pushed entry is not the range's own (combo, weight): {P.show(val)[:80]}")
+        dst = P.strip(pr.operand(t["args"][0]), calls=False)
+        if pos is not None and not (dst[0] == "call" and dst[1].endswith("::index_mut") and P.strip(dst[2][1]) == pos):
+            problems.append("entries are not pushed into the list of the player being iterated")
+    # board: iterator.board <- evaluator.board
+    ret = pr.local(0)
+    if ret[0] == "agg" and ret[1].startswith("adt:" + M.iter_ty):
+        b = ret[2][M.f_board]
+        bs = P.strip(b)
+        if not (bs == ("field", ("deref", ("param", 1)), board_field) or bs == ("field", ("param", 1), board_field)):
+            problems.append(f"the iterator's board is {P.show(b)[:80]}, not the evaluator's board as given")
+    else:
+        raise U(rule, "the iterator is not built by a struct literal", fn)
+    if problems:
+        ctx.violation(rule, f"{fn.path}|{problems[0].split(':')[0].replace(' ', '-')[:50]}", "; ".join(problems), fn=fn.path, file=fn.file, line=fn.line,
+                      construct="iterator construction")
+    else:
+        ctx.ok(rule, {"fn": fn.path, "entries": "for every player, for every (combo, weight): push", "board": "evaluator.board"}, sample=True)
+    # and new() stores the caller's board / players (clones)
+    pn = P.Prov(M.new)
+    t = pn.local(0)
+    okn = t[0] == "agg" and t[1].startswith("adt:" + evalmodel.EVAL) and P.strip(t[2][board_field]) == ("param", 1) \
+        and P.strip(t[2][players_field]) == ("param", 2)
+    if okn:
+        ctx.ok(rule, "new(board, players) stores clones of exactly its two arguments")
+    else:
+        ctx.violation(rule, f"{M.new.path}|stored-inputs", "new() does not store (a clone of) the board and the players it was given",
+                      fn=M.new.path, file=M.new.file, line=M.new.line)
+
+
+def F_evaluator_fields(M):
+    fs = M.eval_adt["variants"][0]["fields"]
+    players = [i for i, f in enumerate(fs) if evalmodel.HAND_RANGE in f["ty"]]
+    board = [i for i, f in enumerate(fs) if f["ty"].startswith("[std::option::Option<" + evalmodel.CARD)]
+    if len(players) != 1 or len(board) != 1:
+        raise U("C02.R-entries-complete", "evaluator fields for players / board not unique")
+    return players[0], board[0]
+
+
 def run(ctx):
     ctx.explanation = ("static necessary conditions of exactly-once enumeration, decided on the deal function found from "
                        "the public API (the function under Iterator::next that calls Showdown::new): counter width, "
@@ -323,7 +432,8 @@ def run(ctx):
     c08.rule_narrow(ctx, M, prop="C02")
     for f in (lambda: rule_used_set(ctx, M, fn, pr, turn_f, river_f),
               lambda: rule_product_board(ctx, M, fn, pr, turn_f, river_f),
-              lambda: rule_odometer(ctx, M, fn, pr)):
+              lambda: rule_odometer(ctx, M, fn, pr),
+              lambda: rule_ctor(ctx, M)):
         try:
             f()
         except Unrecognised as e:
